@@ -28,7 +28,7 @@ out = dict(id=sid, property=meta.get("property", sid.split("_")[0]), origin="fre
            confirmed_by_me=dict(head=conf.get("head"), verdict=conf.get("verdict"), patch_applied=conf.get("applied"),
                                 recompiled_test_objects=len(conf.get("recompiled_objects", [])),
                                 relinked=[dict(exe=t["exe"], identical_output=t.get("identical_output"), summary=t.get("summary")) for t in conf.get("executables", []) if t.get("relinked")],
-                                method="confirm_seed2.py: every test object whose ninja dependency record names a patched file is recompiled with its own command line against a worktree with the patch, the test executables are relinked with the untouched baseline objects and their complete output is compared with the baseline executables' output",
+                                method=(conf.get("method_note", "") + "; " if conf.get("method_note") else "") + "confirm_seed2.py / confirm_combined.py: every test object whose ninja dependency record names a patched file is recompiled with its own command line against a worktree with the patch, the test executables are relinked with the untouched baseline objects and their complete output is compared with the baseline executables' output",
                                 demo=conf.get("demo")),
            caught_by={p: ("check %s exits %d with %d VIOLATION line(s)" % (p, c["exit"], c["violations"])) for p, c in caught.items()},
            reports={p: c["first_reports"] for p, c in caught.items()},
